@@ -35,6 +35,7 @@ def run(ctx):
     ctx.do(rule_syntax_agreement)
     ctx.do(rule_reject)
     ctx.do(rule_descends)
+    ctx.do(rule_every_entry_yielded)
     from .hidden_state import rule_no_hidden_state
     ctx.do(rule_no_hidden_state, "C08.history-independence")
     from .pitfalls import rule_loops_not_cut_short
@@ -468,6 +469,43 @@ def rule_reject(ctx):
                   "an unmatched selector does not raise InvalidSelectorError", file=fi.module.relpath, line=lp.lineno,
                   function=fi.qualname, expected="if not _validate_selector(obj, s): raise InvalidSelectorError", found=short(lp, 200))
     # selector syntax is enforced by SelectorProperty on GranularMarking.selectors (both versions): C02.table has the slot
+
+
+def rule_every_entry_yielded(ctx, rule_id="C08.descends-into-objects"):
+    """Every key of a mapping and every position of a list is a path the walk YIELDS, whatever the value stored there (null,
+    an empty list, false, 0): the document has that key, so a selector naming it addresses something.  In each loop of the walk
+    over the entries of a container every path through the body reaches the `yield` of that entry -- no `continue`, no value
+    test before it (constructors drop None / [] only at the top level; nested dictionaries, unregistered extensions and custom
+    content keep and serialise them)."""
+    from ..cfg import cfg_of
+    run = ctx.run
+    prog = ctx.prog
+    n = 0
+    for f_ in walk_functions(prog):
+        g = cfg_of(f_)
+        for lp in [x for x in body_walk(f_.node) if isinstance(x, ast.For)]:
+            ys = [st_ for st_ in ast.walk(lp) if isinstance(st_, ast.Expr) and isinstance(st_.value, (ast.Yield, ast.YieldFrom))]
+            own = [y for y in ys if isinstance(y.value, ast.Yield) and isinstance(y.value.value, ast.Tuple)]
+            if not own:
+                continue
+            n += 1
+            hdr = g.node_of(lp)
+            starts = [s_ for s_, lab in hdr.succ if lab == "true"]
+            ynodes = {g.node_of(y) for y in own}
+            bypass = None
+            for st_ in starts:
+                if st_ in ynodes:
+                    continue
+                p_ = g.path_avoiding(st_, hdr, lambda nd: nd in ynodes, labels_skip=("exc", "raise"))
+                if p_ is not None:
+                    bypass = p_
+            run.check(bypass is None, rule_id, key(f_.module.relpath, f_.qualname, "every-entry-yields-its-path:%d" % n),
+                      "an iteration of the walk over a container's entries can end without yielding the entry's path (a `continue` / "
+                      "a test on the value): keys holding null, [] or another skipped value exist in the document but no selector "
+                      "can address them", file=f_.module.relpath, line=lp.lineno, function=f_.qualname,
+                      expected="yield (path, value) for every entry", found="bypass", path=g.describe_path(bypass))
+    if n < 2:
+        raise AnalysisError("fewer than 2 entry loops with a yield found in the selector walk (%d)" % n)
 
 
 def rule_descends(ctx, rule_id="C08.descends-into-objects"):
